@@ -1,6 +1,7 @@
 package main
 
 import (
+	"go/types"
 	"fmt"
 	"go/token"
 	"strings"
@@ -38,12 +39,37 @@ func storesToField(fn *ssa.Function, pkg, typ, field string) []*ssa.Store {
 			if !ok {
 				continue
 			}
-			if isNamed(fa.X.Type(), pkg, typ) && fieldName(fa.X.Type(), fa.Field) == field {
+			if _, ok := hostedIn(fa, pkg, typ); ok && fieldName(fa.X.Type(), fa.Field) == field {
 				out = append(out, st)
 			}
 		}
 	}
 	return out
+}
+
+// hostedIn: fa addresses a field of a value of the named type (pkg, typ), directly or inside structs nested in it
+// by value (embedded or named sub-structs): the base value of that type.
+func hostedIn(fa *ssa.FieldAddr, pkg, typ string) (ssa.Value, bool) {
+	x := fa.X
+	for i := 0; i < 4; i++ {
+		if isNamed(x.Type(), pkg, typ) {
+			return x, true
+		}
+		inner, ok := x.(*ssa.FieldAddr)
+		if !ok {
+			return nil, false
+		}
+		// the intermediate field must be a struct held by value
+		pt, ok := inner.Type().Underlying().(*types.Pointer)
+		if !ok {
+			return nil, false
+		}
+		if _, isStruct := pt.Elem().Underlying().(*types.Struct); !isStruct {
+			return nil, false
+		}
+		x = inner.X
+	}
+	return nil, false
 }
 
 func pathPassesAny[T ssa.Instruction](p *cfgPath, ins []T) bool {
